@@ -23,7 +23,7 @@ QUIRKS = {1: 'intdiv-mod-floor', 2: 'right$-zero-length', 3: 'loop-condition-bit
           4: 'for-range-arithmetic-overflow', 5: 'mid$-start-beyond-end',
           6: 'pow-integral-typed', 7: 'condition-converted-to-integer',
           8: 'const-ignores-type-suffix', 9: 'int-typed-long', 10: 'len-instr-typed-long',
-          11: 'double-overflow-gives-inf'}
+          11: 'double-overflow-gives-inf', 12: 'restore-rewinds-to-last-part'}
 ALLQ = sorted(QUIRKS)
 FUEL = 400000
 
@@ -46,6 +46,8 @@ def norm_model(mo):
             out.append(e)
     if oc[0] == 0:
         o = ('end',)
+    elif oc[0] == 1 and oc[1] == 8:
+        o = ('input-exhausted',)
     elif oc[0] == 1:
         o = ('error', 5 if oc[1] == 6 else oc[1], oc[2])
     elif oc == [2, 4]:
@@ -383,6 +385,7 @@ def matrix_suite(ctx, rn, tier):
 
 def random_suite(ctx, rn, tier, seed):
     n = 150 if tier == 'quick' else 2000
+    n = int(os.environ.get('C01_N', n))
     profiles = [
         ({}, 0.62),
         ({'numcond': 0.3}, 0.08),
@@ -465,9 +468,13 @@ def main(tier, seed):
     ctx.prove()
     exe = ctx.model('Sem')
     rn = Runner(ctx, exe)
-    probe_suite(ctx, rn)
-    matrix_suite(ctx, rn, tier)
-    random_suite(ctx, rn, tier, seed)
+    only = os.environ.get('C01_SUITES', 'probes,matrix,random').split(',')   # development aid
+    if 'probes' in only:
+        probe_suite(ctx, rn)
+    if 'matrix' in only:
+        matrix_suite(ctx, rn, tier)
+    if 'random' in only:
+        random_suite(ctx, rn, tier, seed)
     return ctx.finish(
         'A disagreement is attributed to a known finding only when the reference interpreter with '
         'exactly that defect\'s rule switched on reproduces the implementation run; input '
